@@ -33,6 +33,8 @@ var verifDetermProgs = []verifDetermProg{
 	{"same-named-functions", "import { e, f } from a;\nimport g from b;\nfn main() {\n  let h = f;\n  println(f(), g(), e(), h());\n}\n",
 		map[string]string{"a": "pub fn e() -> int { return 5; }\npub fn f() -> int { return 1; }\n", "b": "fn f() -> int { return 2; }\npub fn e() -> int { return 6; }\npub fn g() -> int { return f() * 10; }\n"}},
 	{"loops-in-several-functions", "fn total(xs: [int]) -> int {\n  let s = 0;\n  for i in xs { s += i; }\n  s\n}\nfn report(limit: int) {\n  let banner = \"== report ==\";\n  let extra = limit * 2;\n  for i in 0..limit { extra += i; }\n  println(banner, \"limit\", limit, extra);\n}\nfn third() -> int {\n  let a = 1;\n  let b = 2;\n  let c = 3;\n  for i in 0..2 { c += i; }\n  for j in [a, b] { c += j; }\n  a + b + c\n}\nfn main() {\n  println(total([1, 2, 3]));\n  report(3);\n  println(third());\n  for i in 0..2 { println(i); }\n}\n", nil},
+	{"function-values-in-modules", "import show from m1;\nimport show2 from m2;\nfn named(a: int) -> int { a }\nfn main() {\n  let f = fn() -> int { 1 };\n  println(f, named);\n  show();\n  show2();\n  println(f());\n}\n",
+		map[string]string{"m1": "pub fn show() {\n  let g = fn() -> int { 2 };\n  println(g, g());\n}\n", "m2": "pub fn show2() {\n  let h = fn() -> int { 3 };\n  let k = fn() -> int { 4 };\n  println(h, k, h() + k());\n}\n"}},
 	{"list-of-objects", "fn main() {\n  let l = [new { k: 1, v: \"a\" }, new { k: 2, v: \"b\" }];\n  for o in l { println(o.k, o.v); }\n  println(l);\n}\n", nil},
 }
 
@@ -64,7 +66,11 @@ func verifObservable(code string, modules0 map[string]string) string {
 }
 
 func VerifHarness_Determinism() {
-	t := verifDetermProgs[errors.VerifNdIntRange("template", 0, len(verifDetermProgs)-1)]
+	from, to := errors.VerifParam("from", 0), errors.VerifParam("to", len(verifDetermProgs)-1)
+	if to > len(verifDetermProgs)-1 {
+		to = len(verifDetermProgs) - 1
+	}
+	t := verifDetermProgs[errors.VerifNdIntRange("template", from, to)]
 	errors.VerifTag("template", t.name)
 	var first, second string
 	panicked, msg := errors.VerifPanics(func() {
